@@ -62,13 +62,17 @@ TZeroFetch ==
 TAlignSilent ==
   /\ RRunning /\ got = <<>> /\ Top.f = "align" /\ Top.n > 0 /\ PadTo(rpos, Top.n) = 0
   /\ FetchCall /\ UNCHANGED <<l, tcase>>
+\* ... and a recorded alignment request that skipped nothing is passed over
+TAlignNoop ==
+  /\ HasEv("ralign") /\ Ev.after = Ev.pos /\ Ev.ok
+  /\ l' = l + 1 /\ UNCHANGED <<readVars, tcase>>
 \* the call returned
 TRet ==
   /\ HasEv("rret") /\ rstatus = "ok"
   /\ Ev.st = "ok" /\ Ev.val = vals /\ vals = <<tcase.v>> /\ Ev.rpos = rpos /\ rpos = Len(input)
   /\ l' = l + 1 /\ UNCHANGED <<readVars, tcase>>
 
-TNext == (TStart \/ TRead \/ TAlign \/ TSilent \/ TZeroFetch \/ TAlignSilent \/ TRet) /\ UNCHANGED serVars
+TNext == (TStart \/ TRead \/ TAlign \/ TSilent \/ TZeroFetch \/ TAlignSilent \/ TAlignNoop \/ TRet) /\ UNCHANGED serVars
 Furthest == TLCSet(42, IF l > TLCGet(42) THEN l ELSE TLCGet(42))
 TInBounds == rpos <= Len(input)
 
